@@ -208,9 +208,12 @@ func VerifPauseProbe(acks []VerifProbeAck) ([]bool, []bool, string) {
 		return released, initAfter, verifPauseErrClass(context.Cause(ctx))
 	}
 	step := int64(0)
+	cur := t.bufferSize.Load() // the buffer size the loop will see for the next acknowledgement (it doubles on growth)
 	for i, a := range acks {
-		length := t.bufferSize.Load()
-		if !a.Grow {
+		length := cur
+		if a.Grow {
+			cur *= 2
+		} else {
 			length--
 		}
 		select {
